@@ -284,7 +284,7 @@ LM_CONTRACT = f"""        ensures {CANARY}
                 && res.unwrap().params@.len() == input_params(method).len()
                 && (res.unwrap().param_self is Some) == (method.self_param is Some),
             // the exported symbol computed on the AST side (unit method_abi_name) is what every backend reads from the HIR
-            res.is_ok() ==> res.unwrap().abi_name == spec_lower_ident(method.abi_name),
+            res.is_ok() ==> res.unwrap().abi_name == spec_lower_ident(method.abi_name) && res.unwrap().name == spec_lower_ident(method.name),
 {G.FRAME}"""
 
 
